@@ -145,6 +145,8 @@ def havoc(it, spec, s, frame, extra_nodes=()):
             tgt = None
             if isinstance(nd, ast.Call) and isinstance(nd.func, ast.Attribute) and nd.func.attr in _MUTATORS:
                 tgt = nd.func.value
+            elif isinstance(nd, ast.Call) and isinstance(nd.func, ast.Name) and nd.func.id == "next" and nd.args:
+                tgt = nd.args[0]
             elif isinstance(nd, ast.Subscript) and isinstance(nd.ctx, (ast.Store, ast.Del)):
                 tgt = nd.value
             elif isinstance(nd, ast.Attribute) and isinstance(nd.ctx, (ast.Store, ast.Del)):
@@ -163,6 +165,12 @@ def havoc(it, spec, s, frame, extra_nodes=()):
             obj = frame.lookup(n)
         except PyRaise:
             continue  # created inside the loop body
+        from .models import SymIter, IterHost
+        if isinstance(obj, SymIter):
+            p = KInt.fresh("iterpos")
+            ex.assume(And(p >= 0, SBool(I(p) >= I(obj.pos))))
+            obj.pos = p
+            continue
         if n not in spec.mutates and not isinstance(obj, (MutSet, MutList)):
             if isinstance(obj, (list, dict, set)) or has_sym(obj):
                 raise OutOfSubset(f"loop mutates {n}={type(obj).__name__}: not covered by the loop contract")
@@ -178,6 +186,8 @@ def havoc(it, spec, s, frame, extra_nodes=()):
             obj.val = obj.val.kind.fresh(n)
         else:
             raise OutOfSubset(f"loop havoc: cannot havoc {n}={obj!r}")
+    if spec.on_havoc is not None:
+        spec.on_havoc(it)
 
 
 def _out_seq(it, frame, spec):
